@@ -68,6 +68,14 @@ func runC07(c *runCtx) {
 				}
 			}
 		}
+		// the mark followed by one and two arbitrary bytes (NUL among them: FF FE 00 xx is UTF-16LE text, not half a UTF-32 mark)
+		for _, a := range []byte{0, 1, 0x30, 'A', 0x7F, 0x80, 0xFE, 0xFF} {
+			c.obsCase("bom+1", cat(bm, []byte{a}), 3072)
+			for _, b2 := range []byte{0, 0x30, 'A', 0xFF} {
+				c.obsCase("bom+2", cat(bm, []byte{a, b2}), 3072)
+				c.obsCase("bom+2", cat(bm, []byte{a, b2, 'x', 0, 'y', 0}), 3072)
+			}
+		}
 		// near-miss BOMs
 		for k := 1; k < len(bm); k++ {
 			c.obsCase("bom-prefix", cat(bm[:k], []byte{0}), 3072)
